@@ -24,10 +24,18 @@ ASSUMPTIONS = [
     "wait_for_ecu's 10 s limit is modelled in half seconds (sleep 0.5 s, ping timeout 0.5 s; boundary ties go to the cancellation, as asyncio does); a ping that is answered with ResponsePending frames followed by silence is not generated",
     "set_session_pre / set_session_post hooks of OEM subclasses are represented by the list of requests they send (send_raw, reply ignored, client exceptions propagate); the base-class hooks send nothing",
     "connection loss (ConnectionError) during a scan is outside (C08)",
+    "free-form positive answers to probes (response id only / a record not repeating the probe) are given to services outside the ISO services whose positive response has mandatory structured parameters; a positive reply that violates such a layout (MalformedResponse in the client) is not generated",
 ]
 
 NEG_MEANINGFUL = [0x22, 0x33, 0x31, 0x12, 0x7E, 0x10, 0x24, 0x72]
 SNS, SNSIAS, IMLOIF = 0x11, 0x7F, 0x13
+# ISO 14229 services an ECU typically implements (besides 0x10 / 0x11 / 0x3E, which every table ECU has): table ECUs draw from these on top of
+# arbitrary service ids
+ISO_SIDS = [0x14, 0x19, 0x22, 0x23, 0x24, 0x27, 0x28, 0x2A, 0x2C, 0x2E, 0x2F, 0x31, 0x34, 0x35, 0x36, 0x37, 0x38, 0x3D, 0x83, 0x84, 0x85, 0x86, 0x87]
+# ISO services whose positive response has mandatory, structured parameters (a positive reply to an all-zero probe would have to follow that
+# layout): only services outside this set get the free-form positive kinds "pos-bare" (response id only, as ReadDataByPeriodicIdentifier's
+# `6A`) and "pos-rec" (a record that does not repeat the probe's bytes, e.g. data of another identifier)
+STRUCTURED_POS = {0x10, 0x11, 0x14, 0x19, 0x22, 0x23, 0x27, 0x28, 0x2C, 0x2E, 0x2F, 0x31, 0x34, 0x35, 0x36, 0x37, 0x3D, 0x3E, 0x3F, 0x85}
 HOOK_PDUS = [b"\x85\x02", b"\x85\x01", b"\x28\x01\x01", b"\x28\x00\x01", b"\x31\x01\xff\x00\x01"]
 
 
@@ -51,12 +59,15 @@ class TableEcu:
         self.svc = {}
         for s in self.sessions:
             d = {}
-            for sid in rng.sample(range(256), rng.randint(0, 24)):
-                if sid in (0x10, 0x11, 0x3E, 0x7F):
+            for sid in rng.sample(range(256), rng.randint(0, 24)) + rng.sample(ISO_SIDS, rng.randint(0, 6)):
+                if sid in (0x10, 0x11, 0x3E, 0x7F) or sid in d:
                     continue
                 minlen = rng.choice([1, 1, 2, 3, 5, 6])
                 if 0x80 <= sid <= 0xBE and rng.random() < 0.5:
                     kind = "pos"
+                elif not (sid & 0x40) and sid not in STRUCTURED_POS and rng.random() < 0.4:
+                    # answers the (malformed, all-zero) probe positively without repeating its bytes
+                    kind = rng.choice(["pos-bare", "pos-rec"])
                 else:
                     kind = rng.choice(NEG_MEANINGFUL)
                 d[sid] = (minlen, kind, rng.random() < 0.15)  # third: silent on the first probe
@@ -199,6 +210,10 @@ class TableEcu:
             return bytes([0x7F, sid, IMLOIF])
         if kind == "pos":
             return bytes([sid + 0x40, 0x00])
+        if kind == "pos-bare":
+            return bytes([sid + 0x40])
+        if kind == "pos-rec":
+            return bytes([sid + 0x40, 0xF1, 0x90, 0x01])
         return bytes([0x7F, sid, kind])
 
     def _respond(self, pdu):
@@ -247,6 +262,8 @@ class TableEcu:
 
 def _r1(txt):
     out = []
+    if txt.strip() == "":
+        return out   # `S:` - nothing is named
     for part in txt.split(","):
         if "-" in part:
             a, b = part.split("-")
@@ -258,7 +275,8 @@ def _r1(txt):
 
 def _oracle_2d(tokens):
     """what a --skip expression denotes (the property's reading, written independently of gallia's parser): per outer key
-    the union of the inner numbers / inclusive ranges; a bare outer key means everything and overrides, wherever it stands"""
+    the union of the inner numbers / inclusive ranges (`S:` names nothing: an empty list, unless other entries add to it); a bare outer key
+    means everything and overrides, wherever it stands"""
     res = {}
     for t in tokens:
         outer, sep, inner = t.partition(":")
@@ -300,6 +318,8 @@ def _skip_tokens(rng, skip):
                 toks.append(f"{num(k)}:{num(rng.randrange(256))}")
             if rng.random() < 0.2:
                 toks.append(f"{num(k)}-{num(k)}:{num(rng.randrange(256))}-{num(255)}")
+            if rng.random() < 0.15:
+                toks.append(f"{num(k)}:")  # names nothing; the bare key still overrides
         elif v:
             cut = rng.randrange(len(v) + 1)
             for part in (v[:cut], v[cut:]):
@@ -307,6 +327,12 @@ def _skip_tokens(rng, skip):
                     toks.append(f"{num(k)}:{ids(part)}")
             if rng.random() < 0.3:
                 toks.append(f"{num(k)}:{ids(rng.sample(v, 1))}")  # repeated
+            if rng.random() < 0.15:
+                toks.append(f"{num(k)}:")  # an entry that names nothing next to entries that do
+        else:
+            toks.append(f"{num(k)}:")      # the session is named, with nothing to leave out
+            if rng.random() < 0.2:
+                toks.append(f"{num(k)}-{num(k)}:")
     rng.shuffle(toks)
     return toks
 
@@ -672,14 +698,18 @@ def run(ctx):
         skip = {}
         if use_sessions and rng.random() < 0.6 and forced is None:
             for s in rng.sample(sessions, rng.randint(1, len(sessions))):
-                if rng.random() < 0.25:
+                x = rng.random()
+                if x < 0.25:
                     skip[s] = None
+                elif x < 0.45:
+                    skip[s] = []   # the session is named with an empty id list (`S:`): nothing is to be left out
+                    ctx.kind("skip:session-with-empty-list")
                 else:
                     lo = rng.randrange(0, 250)
                     cand = list(range(lo, min(256, lo + rng.randint(1, 40)))) + list(ecu.svc.get(s, {}).keys())[:2]
                     skip[s] = sorted(set(cand))
         if rng.random() < 0.15:
-            skip[rng.randrange(1, 0x7F)] = [1, 2, 3]  # entry for a session that is not scanned
+            skip[rng.randrange(1, 0x7F)] = rng.choice([[1, 2, 3], [1, 2, 3], []])  # entry for a session that is not scanned
         check = use_sessions and rng.random() < 0.55
         rid = rng.random() < 0.3
         reset = None
@@ -714,6 +744,8 @@ def run(ctx):
             if impl:
                 ecu.busy_sids = set(rng.sample(impl, min(len(impl), rng.randint(1, 3))))
                 ctx.kind("svc:ecu-with-always-busy-services")
+        if any(ent[1] in ("pos-bare", "pos-rec") for d in ecu.svc.values() for ent in d.values()):
+            ctx.kind("svc:ecu-with-services-answering-probes-positively-without-echo")
         if forced == 6:
             # the read-back works in the default session only: the exception paths inside the re-entry loop
             ecu.f186_nondefault = rng.choice(["silent", "nrc31", "nrc22", "garbage"])
@@ -822,7 +854,14 @@ def run(ctx):
         skip = {}
         if use_sessions and rng.random() < 0.5:
             for s in rng.sample(sessions, rng.randint(1, len(sessions))):
-                skip[s] = None if rng.random() < 0.2 else sorted(set(rng.sample(range(start, max(start + 1, end + 2)), min(3, max(1, end - start)))))
+                x = rng.random()
+                if x < 0.2:
+                    skip[s] = None
+                elif x < 0.4:
+                    skip[s] = []   # named with an empty identifier list: nothing is to be left out
+                    ctx.kind("skip:session-with-empty-list")
+                else:
+                    skip[s] = sorted(set(rng.sample(range(start, max(start + 1, end + 2)), min(3, max(1, end - start)))))
         check = rng.choice([None, None, 1, 2, 5]) if use_sessions else rng.choice([None, 1])
         sns = rng.random() < 0.3
         mode = rng.choice(id_modes) if use_sessions else rng.choice(["plain", "pending", "busy"])
@@ -890,6 +929,33 @@ def run(ctx):
     ctx.notes["transmissions_compared"] = sum(len(c[0].split("|")[1].split()) for c in cases)
 
 
+def _wholly_skipped(skip, s):
+    """the property's reading of a skip map: a session is left out as a whole only when its entry names everything (bare key -> None);
+    an entry with an empty list names nothing"""
+    return s in skip and skip[s] is None
+
+
+def _sessions_attempted(ctx, kind, sessions, skip, r, head):
+    """leaves out what the skip option names - nothing more: every requested session whose skip entry is absent, a (possibly empty) list of
+    ids, is entered (its session change is on the wire) in a run that came to its end; a session-change hook whose request fails makes
+    set_session raise before the session change: those runs are not judged"""
+    if sessions is None or r["outcome"] not in ("exit0", "exit1"):
+        return
+    if any(pdu in HOOK_PDUS and tok in ("t", "i", "s") for pdu, tok in r["trace"]):
+        return
+    sent = {pdu[1] for pdu in r["wire"] if len(pdu) == 2 and pdu[0] == 0x10}
+    for s_ in sessions:
+        if _wholly_skipped(skip, s_) or s_ in sent:
+            continue
+        ent = ("an empty list" if skip[s_] == [] else f"the ids {skip[s_]}"[:80]) if s_ in skip else "no entry"
+        ctx.disagree(f"{kind}:skipped-too-much:session-never-entered:" + ("empty-skip-list" if s_ in skip and skip[s_] == [] else "listed-ids" if s_ in skip else "no-entry"),
+                     f"session {s_:#x} is requested and the skip option has {ent} for it, i.e. does not name the whole session, yet `10 {s_:02x}` was never sent: "
+                     "nothing of that session is probed or reported",
+                     {**_rec(head), "cfg": head, "session": s_, "skip": _fmt_skip(skip)}, impl=_reqs(r["wire"])[:400], model=f"10{s_:02x} on the wire",
+                     spec_violated=True, site=("ServicesScanner.main" if kind == "svc" else "ScanIdentifiers.main") + " (session selection against the skip map)")
+        return
+
+
 def _svc_verdicts(ctx, ecu, sessions, skip, check, rid, reset, hooks, wild, label, r, head):
     """the property's clauses for one service scan on a table ECU (ground truth: the ECU's tables and its request log) -> inert_run"""
     sc = r["scanner"]
@@ -905,6 +971,7 @@ def _svc_verdicts(ctx, ecu, sessions, skip, check, rid, reset, hooks, wild, labe
     if r["outcome"] in ("exit0", "exit1", "raised MissingResponse", "raised IllegalResponse",
                         "raised UnexpectedNegativeResponse", "raised RuntimeError"):
         _svc_wire_spec(ctx, ecu, sessions, skip, rid, reset, hooks, r, head)
+    _sessions_attempted(ctx, "svc", sessions, skip, r, head)
     if not rid:
         for (k_, sid_) in sc.result:
             if sid_ & 0x40:
@@ -958,7 +1025,10 @@ def _id_verdicts(ctx, ecu, P, wild, label, r, counts, head):
     # spec verdict: positives counted == positive replies the ECU really gave to the identifier probes
     if r["outcome"] in ("exit0", "exit1"):
         _id_spec(ctx, service, P["payload"], r, counts, head)
-        _id_skip_wire(ctx, service, sessions, skip, r, head)
+        _id_skip_wire(ctx, service, sessions, skip, r, head, hooks)
+        _sessions_attempted(ctx, "id", sessions, skip, r, head)
+        if not wild and label == "plain" and not P["sns"]:
+            _id_range_probed(ctx, ecu, P, r, head)
     elif not wild and label in ("plain",) and ecu.reset_mode not in ("silent", "garbage") and not hooks:
         ctx.disagree("id:scan-died:" + r["outcome"].split()[-1], f"identifier scan ended with {r['outcome']} on a conformant ECU (session read mode {ecu.f186}); nothing is counted",
                      {**_rec(head), "cfg": head, "f186": ecu.f186}, impl=r["outcome"], spec_violated=True, site="ScanIdentifiers.main / ECU.check_and_set_session")
@@ -1241,11 +1311,13 @@ def _id_checked_spec(ctx, ecu, service, r, head):
             return
 
 
-def _id_skip_wire(ctx, service, sessions, skip, r, head):
-    """identifiers the --skip expression names for a session are never requested in that session (read off the wire)"""
+def _id_skip_wire(ctx, service, sessions, skip, r, head, hooks=None):
+    """identifiers the --skip expression names for a session are never requested in that session (read off the wire); requests sent by
+    the session hooks are not identifier probes"""
     if sessions is None or not skip or service not in (0x22, 0x2E, 0x31):
         return
     key = None
+    hookset = {p for v in (hooks or {}).values() for part in v for p in part}
     for pdu, tok in r["trace"]:
         if len(pdu) == 2 and pdu[0] == 0x10 and pdu[1] != 0:
             if pdu[1] in skip and skip[pdu[1]] is None and pdu[1] != 1:
@@ -1256,7 +1328,7 @@ def _id_skip_wire(ctx, service, sessions, skip, r, head):
             if tok.startswith("p"):
                 key = pdu[1]
             continue
-        if key is None or key not in skip or pdu[0] != service or pdu == b"\x22\xf1\x86":
+        if key is None or key not in skip or pdu[0] != service or pdu == b"\x22\xf1\x86" or pdu in hookset:
             continue
         ident = None
         if service in (0x22, 0x2E) and len(pdu) >= 3:
@@ -1267,6 +1339,38 @@ def _id_skip_wire(ctx, service, sessions, skip, r, head):
             ctx.disagree("id:skipped-identifier-requested", f"identifier {ident:#x} is skipped in session {key:#x} but `{pdu.hex()}` was sent there",
                          {**_rec(head), "cfg": head, "session": key, "request": pdu.hex()}, impl=_reqs(r["wire"])[:400], spec_violated=True,
                          site="ScanIdentifiers.perform_scan / Ranges2D (unravel_2d)")
+            return
+
+
+def _id_range_probed(ctx, ecu, P, r, head):
+    """conformant, session-stable table ECU, run ended with status 0: in every session the ECU let the scanner enter, every identifier of the
+    requested range that the skip option does not name for that session was requested there (read off the ECU's own log: session at
+    receipt, request) - an entry with an empty list leaves the whole range in place"""
+    service, sessions, skip = P["service"], P["sessions"], P["skip"]
+    if sessions is None or r["outcome"] != "exit0" or P["check"] is not None or P["hooks"]:
+        return
+    end = min(P["end"], 0x7F) if service == 0x27 else P["end"]
+    seen = {}
+    for before, pdu, reply in ecu.log:
+        if pdu[0] != service:
+            continue
+        if service in (0x22, 0x2E) and len(pdu) >= 3:
+            seen.setdefault(before, set()).add(int.from_bytes(pdu[1:3], "big"))
+        elif service == 0x31 and len(pdu) >= 4:
+            seen.setdefault(before, set()).add(int.from_bytes(pdu[2:4], "big"))
+        elif service == 0x27 and len(pdu) >= 2:
+            seen.setdefault(before, set()).add(pdu[1])
+    entered = [pdu[1] for before, pdu, reply in ecu.log if len(pdu) == 2 and pdu[0] == 0x10 and reply is not None and reply[0] == 0x50 and pdu[1] in sessions]
+    for k in sessions:
+        if _wholly_skipped(skip, k) or k not in entered or k == 1:
+            continue   # (the default session is also where the ECU is between sessions: not told apart in the log)
+        want = {d for d in range(P["start"], end + 1) if not (k in skip and d in skip[k])}
+        miss = sorted(want - seen.get(k, set()))
+        if miss:
+            ctx.disagree(f"id:skipped-too-much:identifier-never-requested", f"identifier {miss[0]:#x} of the requested range is not named by the skip option for session {k:#x} "
+                         f"(entry: {skip.get(k, 'none')}), the ECU let the scanner enter that session, yet the identifier was never requested there",
+                         {**_rec(head), "cfg": head, "session": k, "missing": miss[:10]}, impl=sorted(seen.get(k, set()))[:40], model=sorted(want)[:40],
+                         spec_violated=True, site="ScanIdentifiers.perform_scan (skip map)")
             return
 
 
@@ -1420,7 +1524,9 @@ MANIFEST = {
                    "re-entry loop, --reset with ECUReset + wait_for_ecu, ECU.set_session with its pre/post hooks, leave_session, the client's "
                    "retry / busyRepeatRequest / ResponsePending loop underneath), for every ECU given as a step function. For any ECU with a "
                    "request log: only probes of selected ids and session maintenance are ever sent (also in runs that are given up or die), "
-                   "every selected id is probed, skipped ids and wholly skipped sessions are never requested, the number of requests is bounded. "
+                   "every selected id is probed, skipped ids and wholly skipped sessions are never requested, the number of requests is bounded; "
+                   "a skip entry with an empty id list (`S:` / {S: []}) leaves nothing out: the session stays requested, every id stays selected and "
+                   "it is reported completely (empty_skip_list_skips_nothing, empty_skip_list_scanned_completely). "
                    "For session-determined ECUs obeying the ISO default rule: reported <=> selected, implemented in the claimed session and "
                    "answering a probe meaningfully (sound for every configuration, exact when the read-back is honest), --reset does not change "
                    "the reported set, identifier counters equal the number of positive identifiers per entered session. For ECUs that lose the "
@@ -1430,7 +1536,11 @@ MANIFEST = {
                    "Tied to the code per single transmission: the real scanners run on a real ECU client over wire-level ECUs (table ECUs with "
                    "session drops, refused / faked re-entry, ResponsePending, busyRepeatRequest, reset / boot variants, hooks; wild ECUs; the real "
                    "RandomUDSServer); the model must put the same transmissions on the wire in the same order and report the same result; the "
-                   "property is evaluated on the ECUs' ground truth; metamorphic pairs (reset, check-session, ResponsePending on/off)."),
+                   "property is evaluated on the ECUs' ground truth; metamorphic pairs (reset, check-session, ResponsePending on/off). Skip maps are "
+                   "given as maps and as CLI text through the real Ranges2D field type (bare sessions, id lists / ranges, entries with an empty id "
+                   "list, entries for sessions not requested) against an independent reading of the expression; every requested session not named as "
+                   "a whole must be entered and (identifier scan, conformant ECU) have every not-named identifier requested. Table ECUs draw ISO-named "
+                   "services and services answering the all-zero probes positively without repeating the probe's bytes (response id only / a record)."),
     "level_note": ("Trusted: Lean kernel, the harness (wire transport, exchange recorder around ECU._request, table ECU generator), the real "
                    "UDSClient's matcher as the classifier of final messages (C03). Literal limits (retries, max_retry per call site, MAX_N_PENDING, "
                    "wait_for_ecu durations, leave_session levels) are regenerated from the AST and tied by limits_agree. Outside: database-assisted "
